@@ -20,6 +20,7 @@ EXTENDS Integers, FiniteSets, TLC
 CONSTANTS N,        \* number of validators, numbered 0..N-1
           MaxView,  \* views explored: 0..MaxView
           Height,   \* block index being agreed on (determines the primary rotation)
+          InitSilentSets,   \* the possible initial silent sets (each of at most F members)
           MaxSilentChanges  \* how many times the adversary may change the silent set after the initial choice
 
 F == (N - 1) \div 3
@@ -54,7 +55,7 @@ Init ==
     /\ cvReq = [v \in Val |-> 0]
     /\ msgs = {}
     /\ seen = [v \in Val |-> {}]
-    /\ silent \in {S \in SUBSET Val : Cardinality(S) <= F}
+    /\ silent \in {S \in InitSilentSets : Cardinality(S) <= F}
     /\ sc = 0
 
 Active(v) == v \notin silent /\ accepted[v] = None
